@@ -3,13 +3,10 @@
 itself) and records which checks report a violation.  Writes seeded/MATRIX.json and seeded/MATRIX.md."""
 import json, os, subprocess, sys, tempfile, shutil, time
 ROOT = "/verif"
-EXTRA = {"C08-muladd-copy-removed-equal-operands": ["C07"], "C09-reduce-width-constant-192": ["C05"], "C05-forced-bits-type-mismatch": ["C06"],
-         "C03-rangecheck-value-receiver": ["C06", "C14"], "C02-sponge-zero-pads-partial-chunk": ["C09"], "C13-exp-power-of-two-exponent": ["C08"],
-         "C14-basewidth-guard-relaxed": ["C06"], "C16-qdf-from-max-qdf": ["C19"], "C17-splitlimbs-tolerant-plus-extra-limb": ["C06"], "C15-randomaccess-wirebit-stride": [],
-         "C18-numcopies-last-digit": ["C15"], "C02-mds-quotient-8bits-commit-rounding": ["C09", "C06"], "C10-hashnopad-extra-empty-chunk": ["C12"],
-         "C01-ki0-hardcoded": ["C16"], "C05-bitdecomp-unconstrained-digits": ["C06"], "C09-sbox-x7-width192": ["C05"],
-         "C10-hashornoop-threshold4": ["C12"], "C12-hashnopad-lastchunk": ["C10"], "C12-hashornoop-width4": ["C10"],
-         "C14-width-rounded-to-16": ["C06"], "C15-randomaccess-args-swapped": ["C18"]}
+# related checks that are run in addition to the check of the property a change was written against
+EXTRA = {"C01-queryloop-bound-from-other-copy": ["C20"], "C07-rangecheck-single-64bit": ["C05", "C06"],
+         "C16-qdf-from-max-qdf": ["C19"], "C02-powwitness-int64-sign": ["C19"], "C05-basesum-noreduce-product": ["C15"],
+         "C17-rangecheck-toplimb-maxint32": ["C06"], "C14-basewidth-guard-relaxed": ["C06"]}
 only = sys.argv[1:]
 res_path = os.environ.get("MATRIX_JSON", os.path.join(ROOT, "seeded", "MATRIX.json"))
 md_path = os.environ.get("MATRIX_MD", os.path.join(ROOT, "seeded", "MATRIX.md"))
